@@ -729,8 +729,17 @@ fn dump<'tcx>(tcx: TyCtxt<'tcx>) {
           }
         }
         let (file, line) = cx.loc(tcx.def_span(did));
+        // memory size of non-generic ADTs (len_serialized functions use mem::size_of::<T>() as a wire size)
+        let mut size = J::N;
+        if tcx.generics_of(did).count() == 0 {
+          let ty0 = tcx.type_of(did).instantiate_identity().skip_norm_wip();
+          if let Ok(l) = tcx.layout_of(ty::TypingEnv::fully_monomorphized().as_query_input(ty0)) {
+            size = J::I(l.size.bytes() as i128);
+          }
+        }
         adts.push(J::O(vec![
           ("path", s(cx.def(did))),
+          ("size", size),
           ("kind", s(if adt.is_enum() { "enum" } else if adt.is_union() { "union" } else { "struct" })),
           ("variants", J::A(vars)),
           ("discrs", J::A(discrs)),
